@@ -86,7 +86,11 @@ def instances(case):
     n = case["nticks"]
     place = case.get("place") or {"kind": "active"}
     if place["kind"] == "active":
-        return [("rd", 0, n)]
+        out = [("rd", 0, n, case)]
+        if case.get("twin"):
+            # a second ordinary framer with the same timeouts / repeats, one frame (= at least one tick) behind
+            out.append(("rdb", 0, n, dict(case, frames=twin_frames(case))))
+        return out
     starts = [0]
     for d in place["host"]:
         starts.append(starts[-1] + max(1, d))
@@ -98,11 +102,27 @@ def instances(case):
         return a, max(0, b - a)
     if place["kind"] == "aux":
         a, c = span(place["at"])
-        return [("rd", a, c)]
+        return [("rd", a, c, case)]
     out = []
     for tag, i in place["tags"]:
         a, c = span(i)
-        out.append(("boss_" + tag, a, c))
+        out.append(("boss_" + tag, a, c, case))
+    return out
+
+
+def twin_frames(case):
+    """the program of the second framer: a delay frame, then the same frames (indices shifted by one)"""
+    def shift(v):
+        if v[0] == "G" and isinstance(v[1], int):
+            return ["G", v[1] + 1, v[2]]
+        return v
+    out = [[case["twin"]]]
+    for f in case["frames"]:
+        verbs = [shift(v) for v in fr_verbs(f)]
+        if isinstance(f, dict):
+            out.append({"over": None if f.get("over") is None else f["over"] + 1, "verbs": verbs})
+        else:
+            out.append(verbs)
     return out
 
 
@@ -128,7 +148,7 @@ def flo_script(case):
     def verbs_of(pfx, frames):
         for i, f in enumerate(frames):
             L.append("    frame %s%d%s" % (pfx, i, "" if fr_over(f) is None else " in %s%d" % (pfx, fr_over(f))))
-            if pfx == "F":
+            if pfx in ("F", "G"):
                 # reports every entry of a frame of the timed framer (the outline changed in this tick)
                 L.append("      do fb ent at enter")
             for v in fr_verbs(f):
@@ -144,6 +164,9 @@ def flo_script(case):
                     far = v[1] if v[1] in ("next", "me") else "%s%d" % (pfx, v[1])
                     L.append("      go %s%s" % (far, (" if " + " and ".join(flo_need(n) for n in v[2])) if v[2] else ""))
     verbs_of("F", case["frames"])
+    if case.get("twin") and place["kind"] == "active":
+        L += ["", "  framer rdb be active first G0"]
+        verbs_of("G", twin_frames(case))
     if case.get("helper"):
         L += ["", "  framer helper be aux first H0"]
         verbs_of("H", case["helper"])
@@ -193,10 +216,11 @@ def drv_line(case, mode, start=0, nobs=None):
                 else:
                     o += ["G", str(v[1])] + needs(v[2])
         return o
+    b = [tnum(case["stamp0"])] if case.get("stamp0") else []
     if case.get("fperiod"):
-        out = ["run" + mode + "q", tnum(case["period"]), tnum(case["fperiod"]), str(nobs)] + frames(case["frames"])
+        out = ["run" + mode + "q" + ("b" if b else ""), tnum(case["period"])] + b + [tnum(case["fperiod"]), str(nobs)] + frames(case["frames"])
     else:
-        out = ["run" + mode, tnum(case["period"]), str(start), str(nobs)] + frames(case["frames"])
+        out = ["run" + mode + ("b" if b else ""), tnum(case["period"])] + b + [str(start), str(nobs)] + frames(case["frames"])
     helper = case.get("helper") or []
     done = [i for i, f in enumerate(helper) if any(v[0] == "D" for v in fr_verbs(f))]
     out += ["H"] + frames(helper) + [str(len(done))] + [str(i) for i in done]
@@ -204,7 +228,7 @@ def drv_line(case, mode, start=0, nobs=None):
 
 
 def exact_ok(case):
-    if case["period"] not in DYADIC:
+    if case["period"] not in DYADIC or case.get("stamp0"):
         return False
     try:
         drv_line(case, "i")
@@ -272,7 +296,8 @@ def check_trace(case, line, start=0, count=None, who="rd"):
     nfr = len(frames)
     P = num(case["period"])
     # store stamp: 0, then one addition of the period per tick
-    s = 0.0
+    s = float(num(case["stamp0"])) if case.get("stamp0") else 0.0
+    base = s
     for _ in range(start):
         s += P
     for i, o in enumerate(obs):
@@ -286,7 +311,7 @@ def check_trace(case, line, start=0, count=None, who="rd"):
     ran = [True] * n
     if case.get("fperiod"):
         Qp = max(0.0, float(num(case["fperiod"])))
-        retime = 0.0
+        retime = base
         for i in range(n):
             if retime > obs[i][4]:
                 ran[i] = False
@@ -399,8 +424,20 @@ def gen_lit_count(rng):
     return rng.choice(["2.5", "1.9", "3.0", "0.4"])
 
 
+BIG = "72057594037927936"          # 2**56: adding 0.125 (or 1.0) to it changes nothing in binary64
+
+
 def gen_case(rng, tier):
     period = rng.choice(PERIODS)
+    stamp0 = None
+    r0 = rng.random()
+    if r0 < 0.07:
+        period = "0.0"                  # tick period 0 ("asap"): every tick has the same store stamp
+    elif r0 < 0.12:
+        stamp0 = BIG                    # the period is absorbed: the store stamp never advances
+        period = rng.choice(["0.125", "1.0"])
+    elif r0 < 0.16:
+        stamp0 = rng.choice(["1024.5", "3"])
     nfr = rng.choice([1, 2, 3, 4, 5])
     nticks = rng.choice([6, 10, 16, 24])
     frames = []
@@ -441,6 +478,8 @@ def gen_case(rng, tier):
             nested.append({"over": over, "verbs": verbs})
         frames = nested
     case = {"period": period, "nticks": nticks, "frames": frames}
+    if stamp0:
+        case["stamp0"] = stamp0
     r = rng.random()
     if r >= 0.5 and rng.random() < 0.3:
         # the framer has its own period: a whole number of ticks, a non-multiple, or less than a tick
@@ -460,6 +499,9 @@ def gen_case(rng, tier):
                                        ["G", "next", [["C", "ge", rng.choice([1, 2])]]]])])
         helper.append([["D"]])
         case["helper"] = helper
+    if r >= 0.5 and not case.get("helper") and not case.get("fperiod") and rng.random() < 0.35:
+        # a second ordinary framer with the very same timeouts / repeats, out of phase
+        case["twin"] = rng.choice([["R", "1"], ["R", "2"], ["T", repr(float(Fraction(period) * 2))], ["G", "next", []]])
     if r < 0.2:
         host = [rng.choice([1, 2, 3])] if rng.random() < 0.5 else []
         case["place"] = {"kind": "aux", "host": host, "at": rng.randrange(len(host) + 1)}
@@ -491,7 +533,9 @@ class CHECK(core.Check):
     N_QUICK = 400
     N_THOROUGH = 15000
     N_SEARCH = 1500
-    RULE = ("tick periods {0.125, 0.25, 0.5, 1.0, 0.1, 0.3} x frame sequences of 1-5 flat frames x 6-24 ticks; a frame "
+    RULE = ("tick periods {0.125, 0.25, 0.5, 1.0, 0.1, 0.3} plus 7% tick period 0 and 5% start stamp 2**56 (the store stamp "
+            "never advances) and 4% other start stamps; 35% of the plain ordinary-framer programs add a second ordinary "
+            "framer with the same timeouts / repeats one frame behind; x frame sequences of 1-5 flat frames x 6-24 ticks; a frame "
             "has `timeout T`, `repeat N`, or 1-3 verbs mixing timeout/repeat with `go next|me|Fk [if elapsed|recurred cmp "
             "goal [and …]]`; T on the period grid (0..7 periods), off the grid (±P/2,P/4,P/8), small integers, random "
             "millisecond values, negative literals; N in 0..5, negative, non-integer; bounded-exhaustive: every "
@@ -525,7 +569,8 @@ class CHECK(core.Check):
                   "(a tick without a taken transition - helper started, iterated or finished - keeps stamp and counts on), "
                   "C11_plain_machine_is_instance; framer periods: C11_framer_period_zero, C11_framer_period_runs, "
                   "C11_framer_period_stamps (a framer of period k ticks is run exactly in the ticks divisible by k and sees "
-                  "the stamps 0,kP,2kP,…) "
+                  "the stamps 0,kP,2kP,…); clocks that do not advance: C11_recurred_counts_iterations_any_clock (recurred "
+                  "= completed iterations for ARBITRARY stamp lists, no monotonicity), C11_zero_tick_period_constant_stamp "
                   "(nested frames: the transitions of the active outline apply top down, an over frame's timeout sees the "
                   "clock that every inner transition restarts). Exact time (Int, Skedder stamps 0,P,2P,…, instance entered at any tick s, every P>0, every "
                   "T): C11_elapsed_is_k_periods, C11_timeout_tick_exact, C11_first_multiple_is_ceil (transition tick = "
@@ -545,6 +590,11 @@ class CHECK(core.Check):
 
     def exhaustive(self, tier):
         out = []
+        # a clock that does not advance: tick period 0, and a start stamp that absorbs the period
+        for k in range(7):
+            for extra in ({"period": "0.0"}, {"period": "0.125", "stamp0": BIG}, {"period": "1.0", "stamp0": BIG}, {"period": "0.0", "stamp0": "5"}):
+                out.append(dict({"nticks": 12, "frames": [[["R", str(k)]], [["G", 0, []]]], "origin": "exhaustive"}, **extra))
+                out.append(dict({"nticks": 12, "frames": [[["T", "0.0"]], [["R", str(k)]], [["G", 0, []]]], "origin": "exhaustive"}, **extra))
         for period in PERIODS:
             P = Fraction(period)
             for k in range(7):
@@ -575,6 +625,10 @@ class CHECK(core.Check):
                         {"over": None, "verbs": [sv]}, {"over": 0, "verbs": [verb]}, {"over": None, "verbs": [["G", 0, []]]}]})
                     out.append({"period": period, "nticks": 14, "helper": hp, "origin": "exhaustive", "frames": [
                         {"over": None, "verbs": [verb]}, {"over": 0, "verbs": [sv]}, {"over": None, "verbs": [["G", 0, []]]}]})
+                # a second ordinary framer with the same timeout / repeat, one or two ticks behind
+                for tw in (["R", "1"], ["R", "2"]):
+                    out.append({"period": period, "nticks": 12, "twin": tw, "frames": [[["T", txt]], [["G", 0, []]]], "origin": "exhaustive"})
+                    out.append({"period": period, "nticks": 12, "twin": tw, "frames": [[["R", str(k)]], [["G", 0, []]]], "origin": "exhaustive"})
                 # the framer has its own period of 2 or 3 ticks (and 1.5 ticks): it is run, and counts, only then
                 for mult in (2, 3, Fraction(3, 2)):
                     fq = repr(float(P * mult))
@@ -591,22 +645,22 @@ class CHECK(core.Check):
 
     def requests(self, case):
         reqs = []
-        for name, start, count in instances(case):          # the model's clocks are per framer instance
-            reqs.append(drv_line(case, "f", start, count))
+        for name, start, count, icase in instances(case):   # the model's clocks are per framer instance
+            reqs.append(drv_line(icase, "f", start, count))
             if exact_ok(case):
-                reqs.append(drv_line(case, "i", start, count))
+                reqs.append(drv_line(icase, "i", start, count))
         return reqs
 
     def impl(self, case):
         text = flo_script(case)
         insts = instances(case)
         per = 2 if exact_ok(case) else 1
-        sk = flob.build(text, float(case["period"]))
+        sk = flob.build(text, float(case["period"]), stamp=float(num(case["stamp0"])) if case.get("stamp0") else 0.0)
         if sk is None:
             return ["ERR build"] * (per * len(insts))
         store = sk.houses[0].store
         watch = []
-        for name, start, count in insts:
+        for name, start, count, _ic in insts:
             fr = flob.framer_of(sk, name)
             if fr is None:
                 return ["ERR no framer %s" % name] * (per * len(insts))
@@ -643,8 +697,8 @@ class CHECK(core.Check):
         insts = instances(case)
         if len(out) != per * len(insts):
             return "expected traces of %d instances, got %d lines" % (len(insts), len(out))
-        for k, (name, start, count) in enumerate(insts):      # the property holds for every instance
-            why = check_trace(case, out[k * per], start, count, name)
+        for k, (name, start, count, icase) in enumerate(insts):      # the property holds for every instance
+            why = check_trace(icase, out[k * per], start, count, name)
             if why:
                 return why
         return None
@@ -663,8 +717,9 @@ class CHECK(core.Check):
         k = "+".join(sorted({"T": "timeout", "R": "repeat", "G": "go"}[x] for x in kinds))
         nested = any(fr_over(f) is not None for f in case["frames"])
         place = (case.get("place") or {"kind": "active"})["kind"]
-        return "%s,P=%s%s%s%s,%s" % (k, case["period"], ",nested" if nested else "", ",cond-aux" if has_susp(case) else "",
-                                     ",framer-period" if case.get("fperiod") else "", place)
+        return "%s,P=%s%s%s%s%s%s,%s" % (k, case["period"], ",nested" if nested else "", ",cond-aux" if has_susp(case) else "",
+                                         ",framer-period" if case.get("fperiod") else "", ",twin" if case.get("twin") else "",
+                                         ",stuck-clock" if case["period"] == "0.0" or case.get("stamp0") == BIG else "", place)
 
     def shrink_candidates(self, case):
         def clone():
@@ -673,6 +728,10 @@ class CHECK(core.Check):
             c = clone(); c["nticks"] -= 1; yield c
         if case.get("fperiod"):
             c = clone(); c.pop("fperiod"); yield c
+        if case.get("twin"):
+            c = clone(); c.pop("twin"); yield c
+        if case.get("stamp0") and case["stamp0"] != BIG:
+            c = clone(); c.pop("stamp0"); yield c
         if has_susp(case):
             c = clone()
             for f in c["frames"]:
